@@ -3,7 +3,7 @@ from ..lib import *
 from ..serdeinfo import *
 from .oracle import *
 from .zk import *
-from .c15 import codecs_equal
+from .c15 import codecs_equal, twin_equal, proxy_conversion_positional
 
 LEVEL = "other"
 EXPLANATION = ("Structural necessary conditions for faithful restore: (1) for the five customer stages and every type reachable "
@@ -80,6 +80,19 @@ def run(rep):
             p = r[1]
             if p[0] == "adt" and p[1] in wm and wm[p[1]]["reader"] and wm[p[1]]["reader"][0] == "seq":
                 okc = codecs_equal(wm, wc, wm[p[1]]["reader"][1])
+                if okc:
+                    # same-typed fields must also come back in the same slot: names/order of the decode twin and the
+                    # conversion's field-to-field data flow (a positional format restores by order, a keyed one by name)
+                    f1 = [(f["n"], f["t"]) for f in rec["variants"][0]["fields"]]
+                    f2 = [(f["n"], f["t"]) for f in prog.adts[p[1]]["variants"][0]["fields"]]
+                    pos_ok, pos_why, pb = proxy_conversion_positional(prog, adt, p)
+                    if not twin_equal(prog, f1, f2, adt, p[1]):
+                        rep.fail("codec-symmetric", nm, "%s is written as %s but restored through %s with fields %s: a stored field comes back in another slot" % (
+                            nm, [a for a, _ in f1], p[1].split("::")[-1], [a for a, _ in f2]), site=m["de_body"].loc())
+                        continue
+                    if not pos_ok:
+                        rep.fail("codec-symmetric", nm, "%s's restore conversion moves data between fields: %s" % (nm, pos_why), site=(pb or m["de_body"]).loc())
+                        continue
             else:
                 okc = wc == [("plain", ty_str(p))]
         if okc:
